@@ -11,6 +11,8 @@ import Lattigo.Proofs.RGSW
 import Lattigo.Proofs.RGSW32
 import Lattigo.Proofs.BlindRotPhase
 import Lattigo.Proofs.BlindRotTable
+import Lattigo.Props.C20Ring
+import Lattigo.Props.C20Noise
 
 namespace Lattigo.Props.C20
 open Lattigo Lattigo.RGSW
@@ -281,27 +283,49 @@ example : slotExp 16 [31] 3 [1] = (1, 2) ∧ slotExp 16 [0] 3 [1] = (1, 3) ∧
     automorphisms `φ_g`: if the accumulator decrypts to `φ_t(F)·X^u + n`, then after `BlindRotateCore` it decrypts to
     `φ_{t'}(F)·X^{u'} + n'`, `(t', u')` as in `blindrot_exponent` and `n'` the accumulated noise
     (`noiseRun`: every automorphism permutes the noise and adds its key-switching error, every external
-    product rotates it and adds the term of `extprod_phase_div`). -/
+    product rotates it and adds the term of `extprod_phase_div`).
+
+    The hypotheses on `φ` are required on a multiplicatively closed set `U` of indices containing the Galois
+    elements of the schedule and the initial `t` — in `Z_q[X]/(X^N+1)` the odd residues modulo `2N`.  (Required for
+    ALL `g : ZMod m` they cannot hold in that ring, `C20Ring.blindrot_hyps_unsatisfiable`; the instance in that
+    ring, on `RPoly` values, is `C20Ring.blindrot_invariant_rpoly`.) -/
 theorem blindrot_invariant {m : Nat} {R γ : Type} [CommRing R]
     (mono : ZMod m → R) (φ : ZMod m → R → R) (ph : γ → R)
     (autOp : Nat → γ → γ) (mulOp : Nat → γ → γ) (s : Nat → ZMod m)
+    (U : ZMod m → Prop) (hU : ∀ g t, U g → U t → U (g * t))
     (hmono : ∀ u v, mono (u + v) = mono u * mono v)
-    (hφadd : ∀ g x y, φ g (x + y) = φ g x + φ g y) (hφmul : ∀ g x y, φ g (x * y) = φ g x * φ g y)
-    (hφφ : ∀ g t x, φ g (φ t x) = φ (g * t) x) (hφmono : ∀ g u, φ g (mono u) = mono (g * u))
-    (F : R) (st : List Step) (x : γ) (t u : ZMod m) (n : R) (h : ph x = φ t F * mono u + n) :
+    (hφadd : ∀ g, U g → ∀ x y, φ g (x + y) = φ g x + φ g y)
+    (hφmul : ∀ g, U g → ∀ x y, φ g (x * y) = φ g x * φ g y)
+    (hφφ : ∀ g t, U g → U t → ∀ x, φ g (φ t x) = φ (g * t) x)
+    (hφmono : ∀ g, U g → ∀ u, φ g (mono u) = mono (g * u))
+    (F : R) (st : List Step) (hst : ∀ g, Step.aut g ∈ st → U (g : ZMod m)) (x : γ) (t u : ZMod m) (ht : U t)
+    (n : R) (h : ph x = φ t F * mono u + n) :
     ph (runSteps autOp mulOp st x) =
       φ (runZ s st (t, u)).1 F * mono (runZ s st (t, u)).2 + noiseRun mono φ ph autOp mulOp s st x n :=
-  blindrot_phase mono φ ph autOp mulOp s hmono hφadd hφmul hφφ hφmono F st x t u n h
+  blindrot_phase mono φ ph autOp mulOp s U hU hmono hφadd hφmul hφφ hφmono F st hst x t u ht n h
 
-/-- non-vacuity: `R = γ = ZMod 32`-free toy: `R = γ = ℤ`, trivial monomials and automorphisms -/
-example : (fun x : ℤ => x) (runSteps (fun _ x => x) (fun _ x => x) [Step.aut 5, Step.mul 0] (7 : ℤ)) =
-    (fun (_ : ZMod 32) (x : ℤ) => x) (runZ (fun _ => (0 : ZMod 32)) [Step.aut 5, Step.mul 0] (1, 0)).1 7 *
-      (fun _ : ZMod 32 => (1 : ℤ)) (runZ (fun _ => (0 : ZMod 32)) [Step.aut 5, Step.mul 0] (1, 0)).2 +
-      noiseRun (fun _ : ZMod 32 => (1 : ℤ)) (fun _ x => x) (fun x : ℤ => x) (fun _ x => x) (fun _ x => x)
-        (fun _ => (0 : ZMod 32)) [Step.aut 5, Step.mul 0] 7 0 :=
-  blindrot_invariant (fun _ => 1) (fun _ x => x) (fun x => x) (fun _ x => x) (fun _ x => x) (fun _ => 0)
-    (by intros; ring) (by intros; rfl) (by intros; rfl) (by intros; rfl) (by intros; rfl)
-    7 _ 7 1 0 0 (by ring)
+/-- non-vacuity, NON-TRIVIAL: the hypotheses hold in `Z_Q[X]/(X^8+1)`, `Q = 97·193` (the commutative ring
+    `WFPoly [97, 193] 8` of well-formed `RPoly`s), with the true monomials `X^u` (`monoW`), the true Galois maps
+    `X ↦ X^g` (`phiW` = `RPoly.aut g`) and `U` = "odd" (`GalOK 8`): `X^u·X^v = X^{u+v}`, `φ_g` is a ring
+    endomorphism for odd `g`, `φ_g ∘ φ_t = φ_{gt}`, `φ_g(X^u) = X^{gu}`. -/
+example :
+    (∀ g t : ZMod (2 * 8), C20Ring.GalOK 8 g.val → C20Ring.GalOK 8 t.val → C20Ring.GalOK 8 (g * t).val)
+    ∧ (∀ u v : ZMod (2 * 8), C20Ring.monoW (qs := [97, 193]) (u + v) = C20Ring.monoW u * C20Ring.monoW v)
+    ∧ (∀ g : ZMod (2 * 8), C20Ring.GalOK 8 g.val → ∀ x y : RPolyRing.WFPoly [97, 193] 8,
+        C20Ring.phiW g (x * y) = C20Ring.phiW g x * C20Ring.phiW g y)
+    ∧ (∀ g t : ZMod (2 * 8), C20Ring.GalOK 8 g.val → C20Ring.GalOK 8 t.val → ∀ x : RPolyRing.WFPoly [97, 193] 8,
+        C20Ring.phiW g (C20Ring.phiW t x) = C20Ring.phiW (g * t) x)
+    ∧ (∀ g : ZMod (2 * 8), C20Ring.GalOK 8 g.val → ∀ u : ZMod (2 * 8),
+        C20Ring.phiW (qs := [97, 193]) g (C20Ring.monoW u) = C20Ring.monoW (g * u))
+    ∧ C20Ring.monoW (qs := [97, 193]) ((8 : ℕ) : ZMod (2 * 8)) = -1 :=
+  ⟨fun _ _ hg ht => C20Ring.galOK_zmul hg ht, C20Ring.monoW_add,
+   fun g hg x y => by rw [C20Ring.phiW_ok g hg, C20Ring.phiW_ok g hg, C20Ring.phiW_ok g hg, map_mul],
+   fun g t hg ht x => C20Ring.phiW_phiW g t hg ht x, fun g hg u => C20Ring.phiW_mono g hg u,
+   C20Ring.monoW_half⟩
+
+/-- …and an instance of the theorem itself in that ring, on `RPoly` values, for a concrete schedule:
+    `C20Ring.blindrot_invariant_rpoly` applied to `[aut 5, mul 0, aut 11, mul 1]` (see `Props/C20Ring.lean`). -/
+example := @C20Ring.blindrot_invariant_rpoly
 
 /-- `blindrot_lookup`: the constant coefficient of `F·X^e`, `F` the test polynomial of the table `y`, is `y e`
     for every exponent `e ∈ [−N/2, N/2)` (`N = 2h`). -/
